@@ -18,8 +18,8 @@ LEVEL_TEXT = ("Proof, partial (P). Carried by theorems, for every byte string: s
               "leading white space of every Unicode White_Space rune — is read back by parseField / parseQuotedField as the same field, whatever follows). "
               "Per-type value formatting (interfaceValueAsSqlString classes): int_fmt_roundtrip (every integer) and value_fmt_roundtrip_partial (NULL, "
               "integers, quoted text, 0x binary, quoted temporal text free of quotes/backslashes read back as the same value); refuted for the BIT class "
-              "(raw value bytes: not a literal, or ASCII digits denoting another value). Decimal / float text and the date/time formatters themselves "
-              "are not modelled. Refuted at record level (witnesses replayed on the real code every run): a value containing CR LF comes back with LF only (readLine normalises "
+              "(raw value bytes: not a literal, or ASCII digits denoting another value). dec_fmt_roundtrip: sign, integer part and every fraction digit (the scale) of a decimal literal survive. Float text and the "
+              "date/time formatters themselves are not modelled (temporal values are covered as quoted text). Refuted at record level (witnesses replayed on the real code every run): a value containing CR LF comes back with LF only (readLine normalises "
               "CR LF inside quoted fields); a record that is a single NULL is written as an empty line and skipped by the reader. Resting on correspondence "
               "only: value formatting per column type, CREATE TABLE text, the JSON/Parquet writers, the SQL engine's parsing of the dump — checked by dumping "
               "generated tables (SHOW CREATE TABLE + sqlfmt.SqlRowAsInsertStmt; CSV writer/reader) into fresh databases and comparing every row and the schema text.")
@@ -27,7 +27,7 @@ LEVEL_NOTE = ("Trusted: Coq kernel, Go harness + Python glue. Modelled, not veri
               "(modelled as the White_Space rune table on raw bytes), BOM handling. `dolt dump` itself is a CLI command: the harness uses the same "
               "library calls (sqlfmt row formatting, csv writer) in-process; mvdata/Parquet/JSON file writers are not exercised.")
 THEOREMS = ["sql_string_roundtrip", "hex_roundtrip", "csv_field_roundtrip (generic in the space predicate)", "csv_field_roundtrip_std",
-            "int_fmt_roundtrip", "value_fmt_roundtrip_partial (NULL / integer / quoted text / 0x binary / quoted temporal; BIT excluded)",
+            "int_fmt_roundtrip", "dec_fmt_roundtrip", "value_fmt_roundtrip_partial (NULL / integer / quoted text / 0x binary / quoted temporal; BIT excluded)",
             "oracle_on_model_str", "model_agrees_on_model_str",
             "csv_record_roundtrip_refuted_crlf", "csv_record_roundtrip_refuted_single_null", "value_fmt_roundtrip_refuted_bit"]
 REFUTED = ["csv_record_roundtrip (full): csv_record_roundtrip_refuted_crlf, csv_record_roundtrip_refuted_single_null",
